@@ -135,13 +135,13 @@ Section Run.
     end.
 
   (** the hypotheses of [C10_incremental_eq_fresh] evaluated on a history (a prefix ending in
-      a [Process]): R reported, P paths_ok, D dirs_ok, H healthy at the end; upper case = holds *)
+      a [Process]): R reported, P paths_ok, D dirs_ok, H always_healthy; upper case = holds *)
   Definition scope_flags (w0 : world N) (h : list (event N)) : string :=
     let f0 := w_fs w0 in
     let r := reported N cinp f0 h in
     let p := paths_ok N cinp coutp f0 h in
     let d := dirs_ok N (hash_of hs) (xform_of tbl) cinp coutp w0 h in
-    let hl := healthy N (xform_of tbl) cinp (final_cfg N (w_cfg w0) h) (user_fs N f0 h) in
+    let hl := always_healthy N (xform_of tbl) cinp f0 (w_cfg w0) h in
     ((if r then "R" else "r") ++ (if p then "P" else "p") ++ (if d then "D" else "d")
      ++ (if hl then "H" else "h"))%string.
 
@@ -163,5 +163,8 @@ Definition c10_world0 (f0 : fs) : world N := mkWorld f0 0 empty_tree.
 Definition c10_model (c : c10_case) : string :=
   let '(hs, tbl, f0, gs) := c in check_groups hs tbl (c10_world0 f0) gs 0%nat.
 
+(** the flags at every [Process], then [=] and the flags of the whole history *)
 Definition c10_scopes (c : c10_case) : string :=
-  let '(hs, tbl, f0, gs) := c in scopes hs tbl (c10_world0 f0) [] (flat_map fst gs).
+  let '(hs, tbl, f0, gs) := c in
+  (scopes hs tbl (c10_world0 f0) [] (flat_map fst gs) ++ "="
+   ++ scope_flags hs tbl (c10_world0 f0) (flat_map fst gs))%string.
